@@ -1,14 +1,15 @@
 #!/bin/bash
 # ./seedtest.sh Cxx <patch.diff> [tier]  — run the check of Cxx against a scratch
 # worktree of /repo with the patch applied (never touches /repo's working tree).
-# Prints DETECTED / MISSED and the VIOLATION lines.
+# Prints DETECTED / MISSED and the VIOLATION lines.  Takes no lock itself (callers may hold
+# build/.seed_Cxx.lock already): call it as `flock build/.seed_Cxx.lock ./seedtest.sh Cxx ...`.
 set -u
 cd "$(dirname "$0")"
 pid="$1"; patch="$(readlink -f "$2")"; tier="${3:-quick}"
 wt="/tmp/st_${pid}_$$"
 git -C /repo worktree add --detach "$wt" HEAD -q || exit 2
 if ! git -C "$wt" apply "$patch"; then echo "PATCH-DOES-NOT-APPLY"; git -C /repo worktree remove --force "$wt"; exit 2; fi
-FEMIO_REPO="$wt" flock "build/.seed_${pid}.lock" ./check "$pid" --tier "$tier" > "build/seedtest_${pid}.log" 2>&1
+FEMIO_REPO="$wt" ./check "$pid" --tier "$tier" > "build/seedtest_${pid}.log" 2>&1
 rc=$?
 grep -E "^(VIOLATION|KNOWN-FINDING)" "build/seedtest_${pid}.log"
 tail -1 "build/seedtest_${pid}.log"
